@@ -447,4 +447,11 @@ def c16_i(ctx: Ctx):
     return per_item_loops(ctx, "C16-i", [('signac.import_export:_analyze_directory_for_import', 'a directory is imported with the state point / job of the previous one'), ('signac.import_export:_analyze_zipfile_for_import', 'an archive directory is imported with the state point / job of the previous one'), ('signac.import_export:_analyze_tarfile_for_import', 'an archive directory is imported with the state point / job of the previous one'), ('signac.import_export:_crawl_directory_data_space', 'a directory is paired with the state point parsed for the previous one'), ('signac.import_export:_export_jobs', 'a job is exported to the path computed for the previous one')])
 
 
-RULES = [c16_a, c16_b, c16_c, c16_d, c16_e, c16_f, c16_g, c16_h, c16_i]
+@rule("C16-j")
+def c16_j(ctx: Ctx):
+    """Whole-module cross-checks: no exchanged positional arguments in resolved internal calls; diagnostics (logging / warnings) do no work."""
+    from .lints import swapped_arguments, pure_logging
+    return swapped_arguments(ctx, "C16-j", ['signac.import_export']) + pure_logging(ctx, "C16-j", ['signac.import_export'])
+
+
+RULES = [c16_a, c16_b, c16_c, c16_d, c16_e, c16_f, c16_g, c16_h, c16_i, c16_j]
